@@ -21,6 +21,8 @@ pub mod rust_ir;
 pub mod solve;
 pub mod split;
 pub mod wf;
+#[cfg(feature = "verif-hooks")]
+pub mod verif_hooks;
 
 /// Trait representing access to a database of rust types.
 ///
